@@ -54,7 +54,8 @@ impl FastDivision {
         }
         
         let shift = (32 - divisor.leading_zeros()) as u8;
-        let multiplier = ((1u64 << (32 + shift)) + divisor as u64 - 1) / divisor as u64;
+        // shift is 32 for divisors >= 2^31: widen so that 1 << 64 cannot overflow
+        let multiplier = (((1u128 << (32 + shift as u32)) + divisor as u128 - 1) / divisor as u128) as u64;
         
         Self { divisor, multiplier, shift }
     }
